@@ -1134,6 +1134,85 @@ def pure_info_pos(ctx, T):
             ctx.fail('infopos-changed', 'feature info position %r (%s, %s) is held as %r and sent upstream as %r (%s)' % (pos, cv, code, internal, up_pos, uv), desc)
 
 
+def pure_load_assign(ctx, T):
+    """TileManager._load_tile_coords on an empty cache with a tile creator that hands the created tiles back in an
+    order of its own (meta tile after meta tile, reversed, shuffled; with tiles nobody asked for; some not created):
+    which created image ends up in which cell of the requested collection -> model load_assign; oracle: a cell holds
+    the image made for its own coordinate.  Deterministic (own random stream)."""
+    import random
+    import shutil
+    import tempfile
+    from mapproxy.cache.file import FileCache
+    from mapproxy.cache.tile import TileManager, Tile, TileCollection
+    from mapproxy.grid import TileGrid
+    from mapproxy.image.opts import ImageOptions
+    from mapproxy.srs import SRS
+    from mapproxy.util.lock import DummyLock
+
+    class Locker(object):
+        def lock(self, tile):
+            return DummyLock()
+
+    class Source(object):
+        supports_meta_tiles = True
+        res_range = None
+        coverage = None
+        extent = None
+
+    rng = random.Random(20261002)
+    tmp = tempfile.mkdtemp(prefix='c01-la-')
+    try:
+        grid = TileGrid(SRS(3857), bbox=[0, 0, 4096, 4096], tile_size=(64, 64), res=[8.0, 4.0, 2.0, 1.0])
+        for n in range(40):
+            level = rng.choice([2, 3])
+            x0, y0 = rng.randrange(0, 6), rng.randrange(0, 6)
+            nx, ny = rng.choice([(4, 2), (2, 2), (3, 2), (6, 2), (4, 4), (2, 1), (1, 3)])
+            coords = [(x0 + i, y0 + ny - 1 - j, level) for j in range(ny) for i in range(nx)]       # row by row, as the request lists them
+            cells = list(coords)
+            if n % 5 == 3:
+                cells[rng.randrange(len(cells))] = None          # a cell outside the grid
+            if n % 7 == 6:
+                cells.append(cells[0] if cells[0] is not None else cells[1])   # the same coordinate twice
+            wanted = [c for c in cells if c is not None]
+            mw, mh = rng.choice([(2, 2), (1, 2), (2, 1), (3, 2)])
+            order = sorted(set(wanted), key=lambda c: (c[1] // mh, c[0] // mw, -c[1], c[0]))         # meta tile after meta tile
+            mode = n % 4
+            if mode == 1:
+                order.reverse()
+            elif mode == 2:
+                rng.shuffle(order)
+            elif mode == 3 and len(order) > 2:
+                # one tile not created, one that nobody asked for: the count still equals the number of missing tiles
+                order[rng.randrange(len(order))] = (x0 + 40, y0 + 40, level)
+            created = [(c, 1000 + k) for k, c in enumerate(order)]
+            mgr = TileManager(grid, FileCache(tmp, 'png'), [Source()], 'png', meta_size=[mw, mh], meta_buffer=0,
+                              image_opts=ImageOptions(format='image/png'), locker=Locker())
+
+            class Creator(object):
+                def create_tiles(self, tiles):
+                    return [Tile(c, source=v) for c, v in created]
+            mgr.creator = lambda dimensions=None: Creator()
+            tiles = TileCollection(cells)
+            r = call(mgr._load_tile_coords, tiles)
+            rep = {'fn': 'TileManager._load_tile_coords', 'requested_cells': cells, 'created_in_this_order': created, 'cache': 'empty'}
+            ctx.case(('load_assign', n, tuple(cells), tuple(created)), True, rep if n < 2 else None)
+            if r[0] != 'ok':
+                ctx.fail('load_assign:exception', '_load_tile_coords raised %s' % r[1], rep)
+                continue
+            obs = [t.source for t in tiles]
+            rep['cell_sources'] = obs
+            made = dict(created)
+            for k, c in enumerate(cells):
+                if c is not None and cells.count(c) == 1 and obs[k] != made.get(c):
+                    ctx.fail('load_assign:wrong-cell', 'cell %d of the request has coordinate %r and got image %r; the creator made image %r for that coordinate'
+                             % (k, c, obs[k], made.get(c)), rep)
+                    break
+            T.add('load_assign', '(%s, %s, %s)' % (llit(cells, lambda c: olit(c, coord_lit)), llit(created, lambda cv: '(%s, %s)' % (coord_lit(cv[0]), zlit(cv[1]))),
+                                                   llit(obs, olit)), rep)
+    finally:
+        shutil.rmtree(tmp, ignore_errors=True)
+
+
 def run_pure(ctx, T):
     rng = ctx.rng
     grids = [make_grid(rng, 'g%d' % i) for i in range(ctx.n(10, 60))]
@@ -1142,7 +1221,8 @@ def run_pure(ctx, T):
              ('transform', lambda: pure_transform(ctx, T)), ('info', lambda: pure_info(ctx, T)), ('axis', lambda: pure_axis(ctx, T)),
              ('infopos', lambda: pure_info_pos(ctx, T)), ('client', lambda: pure_client(ctx, T)),
              ('srs', lambda: pure_srs(ctx, T)), ('mesh', lambda: pure_mesh(ctx, T)),
-             ('mesh_error', lambda: pure_mesh_error(ctx, T)), ('mesh_recursion', lambda: pure_mesh_recursion(ctx, T))]
+             ('mesh_error', lambda: pure_mesh_error(ctx, T)), ('mesh_recursion', lambda: pure_mesh_recursion(ctx, T)),
+             ('load_assign', lambda: pure_load_assign(ctx, T))]
     for name, f in steps:
         try:
             f()
@@ -1162,6 +1242,11 @@ def correspond(ctx, T, grid_defs):
                    "| Affected ab nx ny ts => bbox_eqb ab oab && (nx =? onx) && (ny =? ony) && list_eqb Bool.eqb (present_mask ts) omask "
                    "| InvalidBBOX => false end",
                    lambda i: T.get('scaled')[1][i], defs=defs, shard=150)
+    ctx.corr_check('load_tile_coords_assignment', I, 'list (option (Z * Z * Z)) * list ((Z * Z * Z) * Z) * list (option Z)', T.get('load_assign')[0],
+                   "fun c => let '(cells, created, obs) := c in "
+                   "list_eqb (fun a b : option Z => match a, b with Some x, Some y => x =? y | None, None => true | _, _ => false end) "
+                   "(map snd (load_assign (map (fun oc => (oc, @None Z)) cells) created)) obs",
+                   lambda i: T.get('load_assign')[1][i], defs=QDEFS)
     ctx.corr_check('mesh_corners', I, 'Q * Q * Q * Q * qbbox * Z * Z * qbbox * Z * Z * Q * list qpt * Q', T.get('mesh')[0],
                    "fun c => let '(ax, bx, ay, by_, sb, sw, sh, db, dw, dh, off, obs, tol) := c in "
                    "let T := fun p : qpt => (ax * fst p + bx, ay * snd p + by_)%Q in "
